@@ -46,6 +46,9 @@ def units(tier):
         yield {"ref": ["construct", n, "alone"]}
     for e in corpus.repo_examples():
         yield {"ref": ["example", e["id"]]}
+    if tier == "thorough":
+        for f in corpus.stdlib_files():
+            yield {"ref": ["stdlib", f]}
 
 
 CASCADES = {
